@@ -58,6 +58,7 @@ type Celsius float64
 type Tags []string
 type Ratio float64 // registered with a union whose null branch comes second
 type Stamp int64   // registered with a union whose non-null branch is an object (logical type)
+type Lang string   // a named string type: maps keyed by it are string-keyed
 
 type tcase struct {
 	name string
@@ -80,7 +81,7 @@ func kinds() []reflect.Type {
 		reflect.TypeOf(float32(0)), reflect.TypeOf(float64(0)), reflect.TypeOf(complex64(0)), reflect.TypeOf(complex128(0)),
 		reflect.TypeOf(""), reflect.TypeOf([]byte(nil)), reflect.TypeOf([]string(nil)), reflect.TypeOf([]int64(nil)), reflect.TypeOf([][]byte(nil)), reflect.TypeOf([][]string(nil)),
 		reflect.TypeOf([4]byte{}), reflect.TypeOf([2]int64{}), reflect.TypeOf([2]chan int{}),
-		reflect.TypeOf(map[string]int64(nil)), reflect.TypeOf(map[string][]string(nil)), reflect.TypeOf(map[string]map[string]bool(nil)), reflect.TypeOf(map[int]string(nil)), reflect.TypeOf(map[[2]byte]string(nil)), reflect.TypeOf(map[Celsius]string(nil)),
+		reflect.TypeOf(map[string]int64(nil)), reflect.TypeOf(map[string][]string(nil)), reflect.TypeOf(map[string]map[string]bool(nil)), reflect.TypeOf(map[int]string(nil)), reflect.TypeOf(map[[2]byte]string(nil)), reflect.TypeOf(map[Celsius]string(nil)), reflect.TypeOf(map[Lang]string(nil)), reflect.TypeOf((*map[Lang][]int64)(nil)), reflect.TypeOf([]map[Lang]Lang(nil)),
 		reflect.TypeOf(struct{ A int64 }{}), reflect.TypeOf(struct{}{}), reflect.TypeOf(in), reflect.TypeOf(&in), reflect.TypeOf([]Inner(nil)), reflect.TypeOf([]*Inner(nil)), reflect.TypeOf(map[string]Inner(nil)),
 		pi, reflect.PointerTo(pi), reflect.TypeOf(&s), reflect.TypeOf((*[]int64)(nil)), reflect.TypeOf((*map[string]int64)(nil)), reflect.TypeOf((*[]byte)(nil)), reflect.TypeOf((**[]int64)(nil)),
 		reflect.TypeOf([]*int64(nil)), reflect.TypeOf(map[string]*int64(nil)), reflect.TypeOf((*struct{ A *int64 })(nil)),
@@ -546,7 +547,7 @@ func init() {
 		ID:    "C15",
 		Level: "exploration",
 		Rule: func(tier string) string {
-			return "bounded-exhaustive enumeration of Go struct types (reflect.StructOf + static named/recursive types): 88 field types (every kind incl. unsupported ones, slices/maps/pointers/arrays of them, named struct, registered library and harness types) × 15 tag combinations as single-field structs; each field type in a 5-field struct with unexported/excluded siblings; each behind {struct, *struct, []struct, map[string]struct, []*struct} with omitempty; embedded exported/pointer/unexported structs; the same named struct in 2–3 positions; 7 self-referential shapes (own worker case each, 64 MiB stack)" + map[string]string{"thorough": "; all ordered pairs of field types", "quick": ""}[tier] + "; oracle = the documented mapping written as a total specification function (spec.SchemaFor) + structural validity + determinism (value and pointer call; and a third call after the caller has overwritten everything reachable from the first result) + Schema.Codec returns without panic; plus every history of length<=3 over {generate, register schema 1, register schema 2 for the inner named type} on fresh generic types, each generation compared with the mapping under the registrations in force at that moment; non-trivial = the mapping defines a verdict (schema or must-fail) for the type"
+			return "bounded-exhaustive enumeration of Go struct types (reflect.StructOf + static named/recursive types): 91 field types (every kind incl. unsupported ones, slices/maps/pointers/arrays of them, named struct, registered library and harness types) × 15 tag combinations as single-field structs; each field type in a 5-field struct with unexported/excluded siblings; each behind {struct, *struct, []struct, map[string]struct, []*struct} with omitempty; embedded exported/pointer/unexported structs; the same named struct in 2–3 positions; 7 self-referential shapes (own worker case each, 64 MiB stack)" + map[string]string{"thorough": "; all ordered pairs of field types", "quick": ""}[tier] + "; oracle = the documented mapping written as a total specification function (spec.SchemaFor) + structural validity + determinism (value and pointer call; and a third call after the caller has overwritten everything reachable from the first result) + Schema.Codec returns without panic; plus every history of length<=3 over {generate, register schema 1, register schema 2 for the inner named type} on fresh generic types, each generation compared with the mapping under the registrations in force at that moment; non-trivial = the mapping defines a verdict (schema or must-fail) for the type"
 		},
 		Assumptions: []string{
 			"Go arrays are not mentioned by the documented mapping: types containing them are exercised (no panic, determinism, validity) but their schema is not judged",
